@@ -45,14 +45,19 @@ MANIFEST = {
             "needs dot-free distinct field names, refuted otherwise). Typed construction: the dispatch of "
             "_implicit_format_conversion is re-tabulated from the running code on every run (10 field kinds x 19 argument forms "
             "-> class of the stored column or raise; add_fields type inference x 14 forms; Gen/C19.lean) and the kernel re-checks 'converts to the declared type or "
-            "raises' over the whole table, except the explicitly listed cells of the recorded findings. Correspondence: the real "
+            "raises' over the whole table with per-kind declared classes (int -> integer array, float -> float array, bool -> bool array, ...), "
+            "except the explicitly listed cells of the recorded findings (20 cells keep another numeric dtype, 31 store the argument "
+            "unconverted: construct_census; no listed cell is stale: construct_whitelists_tight). The whole program interpreter on columns "
+            "equals the row-wise interpreter on entries, in rows, width and failure (run_refines_rows; the row interpreter is the "
+            "Spec side the driver runs). Correspondence: the real "
             "classes of bionumpy.datatypes and dynamically made ones with every column kind, 0..N rows, single operations "
             "exhaustively and random programs, nested classes up to depth 3, against the Lean model, the Lean row-level spec and a "
             "pure-Python list-of-tuples oracle; every final conversion (tolist, iteration, dict, pandas, entry tuples) must "
             "reproduce the same rows and operands must be unchanged.",
     "note": "Per-type indexing/concatenation lives in npstructures and the column classes (externals, exercised by the "
             "correspondence); pandas DataFrame construction / to_dict('series') are assumed content-preserving. Sort ties between "
-            "different rows are not exercised (NumPy's default sort is not stable).",
+            "different rows are not exercised (NumPy's default sort is not stable). The pandas round trip and 'operands unchanged' "
+            "have no Lean counterpart (pandas is an external; the model is functional): correspondence only (Audit/C19.lean).",
     "technique": "Lean 4 proofs (transpose / gather algebra, induction over programs, mutual recursion over nested tables) + kernel-checked obligation over a dispatch table regenerated from source + differential correspondence with the real table classes",
     "design": "§6 C19",
 }
@@ -178,9 +183,9 @@ FORM_ORDER = ["list_str", "list_int", "list_float", "list_bool", "list_none", "n
 ALLOWED = {
     "str": ["encragged:base", "encragged:alpha", "encflat:base", "encflat:alpha"],
     "sid": ["stringarray", "encflat:base", "encflat:alpha"],
-    "int": ["ndarray:b", "ndarray:i", "ndarray:u", "ndarray:f"],
-    "float": ["ndarray:b", "ndarray:i", "ndarray:u", "ndarray:f"],
-    "bool": ["ndarray:b", "ndarray:i", "ndarray:u", "ndarray:f"],
+    "int": ["ndarray:i", "ndarray:u"],      # per field kind (audit review #20): an int field holds an integer array, ...
+    "float": ["ndarray:f"],
+    "bool": ["ndarray:b"],
     "opt": ["ndarray:b", "ndarray:i", "ndarray:u", "ndarray:f", "ndarray:O"],
     "li": ["ragged:b", "ragged:i", "ragged:u", "ragged:f", "ndarray:b", "ndarray:i", "ndarray:u", "ndarray:f"],
     "dna": ["encragged:alpha", "encflat:alpha"],
@@ -1236,6 +1241,9 @@ def finding_key(c, got, exp):
     if c["op"] == "infer_cell":
         return "add_fields:inferred-type-" + c["form"]
     if c["op"] == "construct_cell":
+        if c["kind"] in ("int", "float", "bool") and isinstance(got, dict) and str(got.get("outcome", "")).startswith("ndarray:") \
+                and got["outcome"][-1] in "biuf":
+            return "construct:dtype-kept-" + c["kind"]      # a numeric array, but not of the declared dtype
         return "construct:unconverted-" + c["kind"]
     if c["op"] == "construct":
         if "ok" in got and c["bad"]:
